@@ -58,6 +58,8 @@ def check(run, project):
     w6(run, roles, L)
     w7(run, roles)
     framing(run, roles, L)
+    from .c09 import s3
+    s3(run, roles, L)  # which session bit makes the first parameter opaque (decrypt for commands, encrypt for responses)
     helper_semantics(run, project, roles)
     run.floor("W0", 700, "pinned types")
     run.floor("W1", 719, "types classified")
